@@ -64,7 +64,7 @@ def judge (sc : Scenario) (ctxs : List RoundCtx) : Bool × String :=
       let cl := claims c
       if specC06Round cl c.hungNow c.ro.hk c.after then go rest
       else if c.after.crashed || !hooksAfterRelease c.ro.hk then (false, "-")
-      else if c.hungNow then (false, "teardown_rendezvous_race")
+      else if c.hungNow then (false, "teardown_registration_race")
       else
         let bad := cl.filter (fun x => !cleanAfter x.1 x.2 c.after)
         let ex := bad.map (fun x => explain sc c.names x.1 x.2 c.after)
